@@ -383,6 +383,8 @@ def rule_spec_clause(ctx, r):
     lp = load_path(ctx, f"{CORE}:FileSpecHashes", "hashes")
     r.check(lp is not None and lp.endswith("spec-hashes.json"), f"{fsh.module.relpath}::FileSpecHashes.load", "records of earlier invocations are loaded from the store's file",
             "the recorded hashes of earlier invocations are not loaded: every target looks never-recorded", fsh.where)
+    from .persist import rule_store_load
+    rule_store_load(ctx, r, ("spec hashes",))
 
 
 def run(ctx):
